@@ -403,6 +403,8 @@ class VSocket:
 
     def _lookup(self, addr):
         net = self._net
+        if net.gate is not None:
+            net.gate.connection_point()
         self.rec['addr'] = [addr[0], addr[1]]
         net.connects.append((self.rec['id'], int(self.family), addr[0], addr[1], bool(self.rec['nonblocking'])))
         return net.servers.get((addr[0], addr[1]))
@@ -580,6 +582,7 @@ class FakeNet:
         self.client_addr = client_addr
         self.lock = threading.RLock()
         self.select_calls = 0
+        self.gate = None           # vlib.sched.Scheduler when the harness owns the interleaving
 
     def advance(self, s):
         with self.lock:
